@@ -569,6 +569,98 @@ def _o_big_n(spec, n, seed, stats):
     return None
 
 
+def _wrap_vm(dimspec_like_fam, x, mu):
+    return mu + np.mod(x - mu + np.pi, 2 * np.pi) - np.pi if dimspec_like_fam == "VM" else x
+
+
+def _o_history_univariate(fam, mode, seed, n, stats):
+    """HISTORY of one distribution: draw -> change it (assign other parameters, or fit to data that follow other parameters)
+    -> draw again -> change back -> draw: every sample is judged against the distribution's CURRENT cdf (its own cdf method
+    and, when the parameters were assigned, the harness' formula) with the DKW band at 1e-12"""
+    import random
+    r = random.Random(seed)
+    da, db = M.rand_dim(r, fam, None), M.rand_dim(r, fam, None)
+    scale_like = {"W": "alpha", "LN": "mu", "NF": "mu_norm", "EW": "alpha", "GG": "lambda_", "N": "mu", "VM": "mu", "SW": "scale"}[fam]
+    shift = {"LN": 1.5, "N": 6.0, "VM": 2.0}.get(fam)
+    db["params"][scale_like] = ["val", da["params"][scale_like][1] + shift] if shift else ["val", da["params"][scale_like][1] * (0.25 if fam == "GG" else 4.0)]
+    dist = M.build_dist(da)
+    eps = dkw(n)
+    steps = [("as constructed", da), ("after the change", db), ("after changing back", da)]
+    for k, (label, d) in enumerate(steps):
+        if k:
+            if mode == "fit":
+                g = np.random.default_rng(seed + k)
+                try:
+                    dist.fit(np.asarray(M.dim_method(d, "ppf", g.uniform(1e-6, 1 - 1e-6, 3000)), dtype=float))
+                except Exception:  # noqa
+                    return "unjudged"
+            else:
+                for name, v in d["params"].items():
+                    setattr(dist, name, v[1])
+        x = np.asarray(dist.draw_sample(n, random_state=seed + 10 * k), dtype=float)
+        if x.shape != (n,) or not np.all(np.isfinite(x)):
+            return ({"clause": "shape", "kind": "history"}, "%s.draw_sample(%d) %s has shape %r / non-finite values" % (fam, n, label, x.shape))
+        pars = dict(dist.parameters)
+        xw = _wrap_vm(fam, x, float(pars.get("mu", 0.0)))
+        checks = [("its own cdf", np.asarray(dist.cdf(xw), dtype=float))]
+        if mode != "fit":
+            checks.append(("the documented cdf of the assigned parameters", M.dim_method(d, "cdf", xw)))
+        for what, u in checks:
+            dks = ks_uniform(u)
+            stats["ks_over_eps_max_history"] = max(stats.get("ks_over_eps_max_history", 0.0), dks / eps)
+            if dks > FAR * eps:
+                return ({"clause": "distribution", "kind": "history", "family": fam, "mode": mode},
+                        "history of %s%r: draw_sample(%d, random_state=%d) %s (%s; parameters now %r) does not follow %s: KS distance %.4f, DKW band %.4f at 1e-12" % (
+                            fam, {k2: v[1] for k2, v in da["params"].items()}, n, seed + 10 * k, label,
+                            "fit to data of %r" % {k2: v[1] for k2, v in d["params"].items()} if mode == "fit" else "parameters assigned",
+                            {k2: float(v) for k2, v in pars.items()}, what, dks, eps))
+    return None
+
+
+def history_model_specs(rng, fam):
+    """(A, B): 2-D models of one form, family `fam` as the INDEPENDENT variable, a log-normal conditional on it"""
+    a0, b0 = M.rand_dim(rng, fam, None), M.rand_dim(rng, fam, None)
+    scale_like = {"W": "alpha", "LN": "mu", "NF": "mu_norm", "EW": "alpha", "GG": "lambda_", "SW": "scale"}[fam]
+    b0["params"][scale_like] = ["val", a0["params"][scale_like][1] + 1.2] if fam == "LN" else ["val", a0["params"][scale_like][1] * (0.3 if fam == "GG" else 3.0)]
+    c = lambda m0, s0: {"fam": "LN", "cond": 0, "params": {"mu": ["dep", "lin", [m0, rng.uniform(0.1, 0.2)]], "sigma": ["fix", s0]}}
+    s0 = rng.uniform(0.25, 0.4)
+    return {"dims": [a0, c(rng.uniform(0.3, 0.6), s0)]}, {"dims": [b0, c(rng.uniform(1.5, 2.0), s0)]}
+
+
+def _o_history_model(spec_a, spec_b, mode, seed, n, stats):
+    """HISTORY of a joint model: draw -> model.fit to data of another model of the same form (or parameters assigned in
+    place) -> draw -> back -> draw: the Rosenblatt transform of every sample, through the model's CURRENT per-dimension
+    cdfs, is uniform in every column (DKW band at 1e-12)"""
+    from harness import c06
+    model = M.build_model(spec_a)
+    nd = len(spec_a["dims"])
+    eps = dkw(n, nd)
+    for k, (label, sp) in enumerate([("as constructed", spec_a), ("after the change", spec_b), ("after changing back", spec_a)]):
+        if k:
+            if mode == "fit":
+                try:
+                    model.fit(c06.spec_sample(sp, 4000, seed + k))
+                except Exception:  # noqa
+                    return "unjudged"
+            else:
+                c06.apply_spec(model, sp)
+        a = np.asarray(model.draw_sample(n, random_state=seed + 10 * k), dtype=float)
+        if a.shape != (n, nd) or not np.all(np.isfinite(a)):
+            return "unjudged" if a.shape == (n, nd) else ({"clause": "shape", "kind": "history"}, "draw_sample(%d) %s has shape %r" % (n, label, a.shape))
+        for i in range(nd):
+            cnd = model.conditional_on[i]
+            u = model.distributions[i].cdf(a[:, i]) if cnd is None else model.distributions[i].cdf(a[:, i], given=a[:, cnd])
+            dks = ks_uniform(np.asarray(u, dtype=float))
+            stats["ks_over_eps_max_history"] = max(stats.get("ks_over_eps_max_history", 0.0), dks / eps)
+            if dks > FAR * eps:
+                return ({"clause": "distribution", "kind": "history", "model": "joint", "mode": mode},
+                        "history of a model %r (conditional_on=%r): draw_sample(%d, random_state=%d) %s (%s) -- column %d given column %r does not follow "
+                        "the model's current (conditional) cdf: KS distance %.4f, DKW band %.4f at 1e-12" % (
+                            [d["fam"] for d in spec_a["dims"]], list(M.structure(spec_a)), n, seed + 10 * k, label,
+                            "model.fit to data of the other model" if mode == "fit" else "parameters assigned in place", i, cnd, dks, eps))
+    return None
+
+
 def build_conditional(dimspec):
     import virocon
     import virocon.distributions as vd
@@ -630,6 +722,8 @@ o_redraw = _safe(_o_redraw, "model.draw_sample(n, random_state=Generator)")
 o_statistics = _safe(_o_statistics, "model.draw_sample(n, random_state=seed)")
 o_univariate = _safe(_o_univariate, "dist.draw_sample(n, random_state=seed)")
 o_twin = _safe(_o_twin, "model.draw_sample(n, random_state=seed)")
+o_history_univariate = _safe(_o_history_univariate, "history draw / change / draw of a distribution")
+o_history_model = _safe(_o_history_model, "history draw / fit / draw of a model")
 o_big_n = _safe(_o_big_n, "model.draw_sample(n > 1e6, random_state=seed)")
 o_predefined = _safe(_o_predefined, "predefined model draw_sample(n, random_state=seed)")
 o_conditional_vector = _safe(_o_conditional_vector, "ConditionalDistribution.draw_sample(n, given_vector, random_state=Generator)")
@@ -652,6 +746,10 @@ def replay(ctx, rp):
         o = o_predefined(rp["name"], rp["n"], rp["seed"], stats)
     elif kind == "big_n":
         o = o_big_n(rp["spec"], rp["n"], rp["seed"], stats)
+    elif kind == "history_univariate":
+        o = o_history_univariate(rp["fam"], rp["mode"], rp["seed"], rp["n"], stats)
+    elif kind == "history_model":
+        o = o_history_model(rp["spec"], rp["spec_b"], rp["mode"], rp["seed"], rp["n"], stats)
     elif kind == "twin":
         o = o_twin(rp["spec"], rp["n"], rp["seed"], rp.get("seed_type", "int"))
     elif kind == "univariate":
@@ -920,6 +1018,24 @@ def run(ctx):
         seed = rng.randrange(2 ** 31)
         neval += 1
         report(o_big_n(esp, n, seed, stats), {"oracle": "big_n", "spec": esp, "n": n, "seed": seed})
+    # histories: draw -> change (assign parameters / fit to data of other parameters) -> draw -> back -> draw, every family
+    # alone and as the independent variable of a model
+    for fam in ALLFAMS:
+        for mode in ("assign", "fit"):
+            seed = rng.randrange(2 ** 31)
+            neval += 1
+            o, n = o_history_univariate(fam, mode, seed, nbig, stats), nbig
+            if o and o != "unjudged":
+                o2 = o_history_univariate(fam, mode, seed, 2000, stats)          # the smaller sample, if it fails as well
+                if o2 and o2 != "unjudged":
+                    o, n = o2, 2000
+            report(o, {"oracle": "history_univariate", "fam": fam, "mode": mode, "seed": seed, "n": n})
+    for fam in M.NONNEG:
+        sa, sb = history_model_specs(rng, fam)
+        for mode in ("assign", "fit"):
+            seed = rng.randrange(2 ** 31)
+            neval += 1
+            report(o_history_model(sa, sb, mode, seed, nbig, stats), {"oracle": "history_model", "spec": sa, "spec_b": sb, "mode": mode, "seed": seed, "n": nbig})
     # every predefined model (fitted to a benchmark data set); the two defined in a transformed space also as TransformedModel
     for name in M.PREDEFINED:
         seed = rng.randrange(2 ** 31)
